@@ -118,6 +118,7 @@ func init() {
 		ex.allocBound = int64(ex.concInt(a[0].(*Term)))
 		return nil
 	})
+	setIntrinsic(hpath+"vAllocCheck", func(ex *Exec, fn *ssa.Function, a []Value) Value { return nil })
 	setIntrinsic(hpath+"vSteps", func(ex *Exec, fn *ssa.Function, a []Value) Value {
 		return i64(int64(ex.steps))
 	})
